@@ -6,6 +6,7 @@
  "replace": ["crypto_aesctr_stream_cipherblock_use"],
  "annotate": ["crypto/crypto_aesctr.c", "crypto/crypto_aesctr_shared.c"],
  "defines": ["VERIF_HALLOC"],
+ "matrix": {"BUFMODE": [0, 1, 2, 3]},
  "timeout": 300,
  "assumptions": ["buffer objects <= CTR_MAXLEN (64) bytes"]
 }
@@ -24,26 +25,29 @@ h_pre(void)
 	IN(size_t, len);
 	__CPROVER_assume(len <= CTR_MAXLEN);
 	CTR_MK_BUFS(in, out, len);
-	g_ctr_in = in;
-	g_ctr_out = out;
-	const uint8_t * inp = in;
-	uint8_t * outp = out;
-	size_t l = len;
+	CTR_CALL(in, out, len);
+	IN(size_t, off0);
+	__CPROVER_assume(off0 <= len);
+	const uint8_t * inp = in + off0;
+	uint8_t * outp = out + off0;
+	size_t l = len - off0;
 	uint64_t ctr0 = S->bytectr;
 	uint8_t inb = (g_i < len) ? in[g_i] : 0;
 	int rc;
 
 	rc = crypto_aesctr_stream_pre_wholeblock(S, &inp, &outp, &l);
 
-	size_t n = len - l;
-	__CPROVER_assert(inp == in + n && outp == out + n && S->bytectr == ctr0 + n, "cursor and position advanced together");
+	size_t n = len - off0 - l;
+	__CPROVER_assert(inp == in + off0 + n && outp == out + off0 + n && S->bytectr == ctr0 + n, "cursor and position advanced together");
 	__CPROVER_assert(rc == 1 ? (l == 0) : (S->bytectr % 16 == 0), "either finished or at a block boundary");
-	if (g_i < n && CTR_AT(S, ctr0 + g_i))
-		__CPROVER_assert(out[g_i] == (inb ^ CTR_KS(ctr0 + g_i)), "out = in0 ^ keystream(position)");
-	VCOVER(rc == 1 && len == 3 && ctr0 % 16 == 13 && g_i == 2 && CTR_AT(S, ctr0 + g_i));
-	VCOVER(rc == 1 && len == 2 && ctr0 % 16 == 13);
-	VCOVER(rc == 0 && ctr0 % 16 == 0 && len > 0 && n == 0);
-	VCOVER(rc == 0 && ctr0 % 16 == 9 && len == 20 && n == 7 && g_i == 6 && CTR_AT(S, ctr0 + g_i) && bufmode == 1);
+	if (g_i >= off0 && g_i - off0 < n && CTR_AT(S, ctr0 + (g_i - off0)))
+		__CPROVER_assert(out[g_i] == (inb ^ CTR_KS(ctr0 + (g_i - off0))), "out = in0 ^ keystream(position)");
+	VCOVER(rc == 1 && l == 0 && n == 3 && ctr0 % 16 == 13 && g_i == off0 + 2 && CTR_AT(S, ctr0 + 2));
+	VCOVER(rc == 1 && n == 2 && ctr0 % 16 == 13);
+	VCOVER(rc == 0 && ctr0 % 16 == 0 && l > 0 && n == 0);
+#if BUFMODE == 1
+	VCOVER(rc == 0 && ctr0 % 16 == 9 && l == 13 && n == 7 && g_i == off0 + 6 && CTR_AT(S, ctr0 + 6) && bufmode == 1);
+#endif
 	VCOVER(rc == 0 && len == 0);
-	VCOVER(rc == 1 && len == 0);
+	VCOVER(rc == 1 && len == off0);
 }
